@@ -6,6 +6,7 @@ import (
 	"fmt"
 	"math/rand"
 	"net"
+	"os"
 	"sort"
 	"strconv"
 	"strings"
@@ -1056,7 +1057,11 @@ func TestC19(t *testing.T) {
 		"ASKING stays in effect for the commands of a MULTI block that follows it (Redis semantics), which is how the cached path sends a command to an importing node",
 		"ownership at execution time is decided with logical-clock windows around every topology change made by the driver")
 	t0 := time.Now()
+	only := os.Getenv("VERIF_C19_PARTS") // debugging aid: comma separated part names
 	timed := func(name string, f func(*mon.Run)) {
+		if only != "" && !strings.Contains(only, name) {
+			return
+		}
 		f(run)
 		run.Extra("wall_s_"+name, time.Since(t0).Seconds())
 		t0 = time.Now()
